@@ -37,6 +37,12 @@ RULE = ('One allowed version spelled twice (names / name and number / '
         '>= 0, closes, runs the exit callback once (N5). Non-trivial: >= 2 '
         'allowed versions and a reply protocol different from the latest '
         'allowed one, or an error/fallback outcome; distinct by scenario.')
+RULE += (' ' +
+         'Added in later rounds: every supported version name and number as '
+         'reply and as allowed version, aliased spellings of one version, '
+         'free-text version names with %, {}, newline, quotes; tokens whose '
+         'profile (name) is set after the Connection was constructed and '
+         'before connect(). ')
 LEVEL_TEXT = ('Model-based testing of the negotiation logic over generated '
               'configurations x server behaviours on an in-memory network, '
               'with every supported protocol used at least once as the '
